@@ -8,6 +8,8 @@ TRUSTED = [
     "the translation of pattern texts into the model's flat form (literals and class+quantifier fields) is done by the harness: the "
     "`parse`, `parse_type.cfparse` and `re` libraries are modelled only for that shape (their pattern syntax and engines are trusted)",
     "harness/gen_more.py: \\w table of Python's re (code points < 0x250), str.isspace",
+    "StepModules.v is a hand-written rendering of runner_util.load_step_modules (execution of module source, sys.path handling and "
+    "per-module globals are not modelled); tied to the code by the step_modules suite",
 ]
 ASSUMPTIONS = [
     "parse / cfparse patterns are sequences of literals and capturing fields (one character class with one quantifier each); cfparse cardinality "
@@ -31,6 +33,8 @@ LEVEL_TEXT = ("Theorems over StepMatch.v: the flat matcher is sound - a match sp
               "anchored); Match.run's positional/keyword split; find_match returns the first matching definition of type-list ++ generic-list in "
               "registration order and only definitions registered for that type or generically; the regular-expression matcher (alternation, quantifiers, "
               "groups) is sound: an end-anchored match implies the complete text is in the language, reported group spans delimit their text; "
+              "loading the step modules of a run (StepModules.v: load_step_modules as an operation list over the registry model): every module "
+              "starts under the matcher in force when loading began, whatever earlier modules left chosen; "
               "for all registration histories: lists only grow at the "
               "end, an ambiguous or repeated registration leaves the registry unchanged, every definition carries the matcher kind in force when it "
               "was registered.  Model compared with StepRegistry + the real matchers.")
@@ -1286,7 +1290,11 @@ def impl_modules(case):
                     outs.append([i, text, "bound", ctx.calls])
                 except Exception as e:      # noqa
                     outs.append([i, text, "raised", type(e).__name__])
-        return {"outs": outs, "matcher_after": after}
+        kinds = []
+        for d in registry.steps["given"]:
+            fn = getattr(d.func, "__name__", "")
+            kinds.append([int(fn[1:]) if fn[:1] == "f" and fn[1:].isdigit() else -1, getattr(type(d), "NAME", type(d).__name__)])
+        return {"outs": outs, "matcher_after": after, "kinds": kinds}
     finally:
         shutil.rmtree(top, ignore_errors=True)
         for k in registry.steps:
@@ -1313,6 +1321,20 @@ def oracle_modules(case, obs):
                                                        what, rest[0] if rest else "", want, sorted(case["modules"]), case["default"]),
                         "modules-matcher-leaks"))
     return out
+
+
+MOD_HEADER = "From BV Require Import Base UStr StepMatch StepModules.\n" + """
+Definition nk_eqb (a b : nat * mkind) : bool := Nat.eqb (fst a) (fst b) && mkind_eqb (snd a) (snd b).
+"""
+
+
+def enc_modules(case, obs):
+    if "kinds" not in obs or any(k not in CK for _i, k in obs["kinds"]) or any(i < 0 for i, _k in obs["kinds"]):
+        return None
+    order = sorted(range(len(case["modules"])), key=lambda i: case["modules"][i][0])        # load order: sorted file names
+    mods = clist(["(%s, %s)" % (cnat(i), "None" if case["modules"][i][1] is None else "(Some %s)" % CK[case["modules"][i][1]])
+                  for i in order], "nat * option mkind")
+    return "(%s, %s)" % (CK[case["default"]], mods), clist(["(%s, %s)" % (cnat(i), CK[k]) for i, k in obs["kinds"]], "nat * mkind")
 
 
 def gen_module_cases(rnd, n):
@@ -1362,5 +1384,8 @@ def suites(tier, seed):
                "nontrivial": lambda c, o: any(m[1] for m in c["modules"]),
                "bound": "%d steps directories of 2-4 modules (each with or without its own use_step_matcher choice, which it leaves "
                         "chosen) x run default parse / re / cfparse, loaded by load_step_modules: every module's definition is "
-                        "compiled by the matcher in force for that module" % len(modcases)}
+                        "compiled by the matcher in force for that module (oracle: bound / undefined / converted value; model: "
+                        "the matcher each registered definition was compiled by, StepModules.v)" % len(modcases),
+               "coq": {"header": MOD_HEADER, "in_ty": "mkind * list (nat * option mkind)", "out_ty": "list (nat * mkind)",
+                       "fn": "kinds_after_loading", "eqb": "list_eqb nk_eqb", "enc": enc_modules, "shard": 200}}
     return [main, regexes, cukes, cmatch, modules]
